@@ -9,7 +9,7 @@ its model value, so that an idiom applied to the wrong kind of array is refused,
 import ast
 
 from . import t2
-from .core import TranslateError, clist, cnat
+from .core import TranslateError, clist, cnat, cz
 
 MESH = 'skfem/mesh/mesh.py'
 MESHIO = 'skfem/io/meshio.py'
@@ -242,9 +242,11 @@ def translate_codec():
     if not (isinstance(loop, ast.For) and t2.src(loop.target) == '(name, data)'
             and t2.src(loop.iter) == 'cell_data.items()' and not loop.orelse and len(loop.body) == 3):
         raise TranslateError('_decode_cell_data: loop')
-    if t2.src(loop.body[0]) != "subnames = name.split(':')" \
-            or t2.src(loop.body[1]) != "if subnames[0] != 'skfem':\n    continue":
-        raise TranslateError('_decode_cell_data: name parsing')
+    splits = {"subnames = name.split(':')": 'parse_key', "subnames = name.split(':', 2)": 'parse_key2',
+              "subnames = name.split(':', maxsplit=2)": 'parse_key2'}
+    if t2.src(loop.body[0]) not in splits or t2.src(loop.body[1]) != "if subnames[0] != 'skfem':\n    continue":
+        raise TranslateError('_decode_cell_data: name parsing: ' + t2.src(loop.body[0]))
+    parse = splits[t2.src(loop.body[0])]
     br = loop.body[2]
     if not (isinstance(br, ast.If) and t2.src(br.test) == "subnames[1] == 's'" and len(br.orelse) == 1
             and isinstance(br.orelse[0], ast.If) and t2.src(br.orelse[0].test) == "subnames[1] == 'b'"
@@ -280,7 +282,8 @@ def translate_codec():
     gen_dec = ('Definition gen_decode_boundary (nslots nt : nat) (t2f : mat nat) (f2t : mat Z)\n'
                '    (data : list N) : list nat * list bool :=\n  ' + tr.body(f'({f}, {o})') + '.')
     gen_keys = (f'Definition gen_key_subdomain : String.string := "{keys[0]}"%string.\n'
-                f'Definition gen_key_boundary : String.string := "{keys[1]}"%string.')
+                f'Definition gen_key_boundary : String.string := "{keys[1]}"%string.\n'
+                f'Definition gen_parse_key := {parse}.   (* {t2.src(loop.body[0])} *)')
     return '\n\n'.join([gen_enc, gen_sub, gen_dsub, gen_dec]), gen_keys
 
 
@@ -368,11 +371,11 @@ TO_DICT = ['boundaries = None', 'subdomains = None',
            'if isinstance(v, OrientedBoundary)}',
            "return {'p': self.p.T.tolist(), 't': self.t.T.tolist(), 'boundaries': boundaries, 'subdomains': subdomains, "
            "**({'orientations': orientations} if orientations else {})}"]
-FROM_DICT = ["if 'boundaries' in data and data['boundaries'] is not None:\n    data['boundaries'] = {k: np.array(v) "
+FROM_DICT = ["if 'boundaries' in data and data['boundaries'] is not None:\n    data['boundaries'] = {k: np.array(v, dtype=np.int32) "
              "for k, v in data['boundaries'].items()}",
              "for k, v in (data.pop('orientations', None) or {}).items():\n    data['boundaries'][k] = "
              "OrientedBoundary(data['boundaries'][k], v)",
-             "if 'subdomains' in data and data['subdomains'] is not None:\n    data['subdomains'] = {k: np.array(v) "
+             "if 'subdomains' in data and data['subdomains'] is not None:\n    data['subdomains'] = {k: np.array(v, dtype=np.int32) "
              "for k, v in data['subdomains'].items()}",
              "data['doflocs'] = data.pop('p')", "data['_subdomains'] = data.pop('subdomains')",
              "data['_boundaries'] = data.pop('boundaries')", 'return cls(**data)']
@@ -481,6 +484,56 @@ def translate_hex():
             f'Definition gen_hex2_out : list nat := {out2}.   (* to_meshio, MeshHex2 *)\n'
             f'Definition gen_hex1_in : list nat := {in1}.     (* from_meshio, hexahedron *)\n'
             f'Definition gen_hex2_in : list nat := {in2}.     (* from_meshio, hexahedron27 *)'), tm, mt
+
+
+POSTINIT = ("if self.nnodes > M and self.elem is not Element:\n    p, t = (self.doflocs, self.t)\n    t_nodes = t[:M]\n"
+            "    uniq, ix = np.unique(t_nodes, return_inverse=True)\n"
+            "    self.t = np.arange(len(uniq), dtype=np.int32)[ix].reshape(t_nodes.shape)\n"
+            "    doflocs = np.hstack((p[:, uniq], np.zeros((p.shape[0], np.max(t) + 1 - len(uniq)))))\n"
+            "    doflocs[:, self.dofs.element_dofs[M:].flatten('F')] = p[:, t[M:].flatten('F')]\n"
+            "    self.doflocs = doflocs")
+
+HEADER_HO = '''(* GENERATED by vlib/c17_translate.py from skfem/mesh/mesh.py (__post_init__), skfem/io/meshio.py and the
+   element classes of the second-order meshes — do not edit *)
+From Coq Require Import List Arith Bool ZArith.
+Import ListNotations.
+Require Import Model.C18_Surgery Model.C17_HighOrder.
+'''
+
+
+def translate_highorder():
+    """Gen/C17GenHO.v: the high-order reordering of Mesh.__post_init__ (statement-exact), the doubled reference
+    coordinates of the local DOFs of the four second-order mesh classes (T1, exact evaluation) and HEX_MAPPING"""
+    import numpy as np
+    tree = t2.parse(MESH)
+    fn = t2.find_def(tree, '__post_init__', 'Mesh')
+    blk = [s for s in fn.body if isinstance(s, ast.If) and 'self.nnodes > M' in t2.src(s.test)]
+    blk = t2.only(blk, '__post_init__: high-order branch')
+    if t2.src(blk) != POSTINIT:
+        raise TranslateError('__post_init__: high-order branch: ' + t2.src(blk))
+    if 'M = self.elem.refdom.nnodes' not in [t2.src(s) for s in fn.body]:
+        raise TranslateError('__post_init__: M')
+    import skfem
+    import skfem.io.meshio as mio
+    out = [HEADER_HO, '''(* Mesh.__post_init__, branch self.nnodes > M *)
+Definition gen_hi_t (M : nat) (t : mat nat) : mat nat := reix_t (firstn M t).   (* arange(len(uniq))[ix].reshape(t_nodes.shape) *)
+Definition gen_hi_doflocs {P} (zero : P) (M ncols : nat) (p : list P) (t edofs_hi : mat nat) : list P :=
+  let uniq := reix_uniq (firstn M t) in
+  let doflocs := gather zero p uniq ++ repeat zero (S (list_max (concat t)) - length uniq) in   (* hstack((p[:, uniq], zeros)) *)
+  scatter (flattenF ncols edofs_hi) (gather zero p (flattenF ncols (skipn M t))) doflocs.     (* doflocs[:, edofs[M:].F] = p[:, t[M:].F] *)''']
+    for cname, ty in (('MeshTri2', 'triangle6'), ('MeshQuad2', 'quad9'), ('MeshTet2', 'tetra10'), ('MeshHex2', 'hexahedron27')):
+        cls = getattr(skfem, cname)
+        if mio.TYPE_MESH_MAPPING.get(cls) != ty:
+            raise TranslateError(f'{cname} is not written as {ty}')
+        d = 2 * np.asarray(cls.elem.doflocs, dtype=float)
+        if not np.all(d == np.round(d)):
+            raise TranslateError(f'{cls.elem.__name__}.doflocs are not half-integral')
+        rows = clist([clist([cz(int(x)) for x in r]) for r in d.tolist()])
+        out.append(f'(* 2 * {cls.elem.__name__}.doflocs : where local DOF k of the element of {cname} sits *)\n'
+                   f'Definition gen_doflocs2_{ty} : list (list Z) := {rows}.')
+    hm = [int(x) for x in mio.HEX_MAPPING]
+    out.append('Definition gen_hex_mapping : list nat := ' + clist([cnat(x) for x in hm]) + '.   (* HEX_MAPPING *)')
+    return '\n\n'.join(out) + '\n'
 
 
 CLASS_TABLES = ''
